@@ -444,12 +444,14 @@ def package_sources(d: Path) -> List[str]:
     return srcs
 
 
-def random_rules(rng: random.Random, ids: List[str], n: int) -> List[str]:
+def random_rules(rng: random.Random, ids: List[str], n: int, roots: Sequence[str] = ()) -> List[str]:
     """A --privacy rule list over names of the package: exact names and patterns, any order."""
     rules = []
     for _ in range(n):
         i = rng.choice(ids)
         p = rng.choice(["HIDDEN", "HIDDEN", "PRIVATE", "PUBLIC"])
+        if i in roots and len(roots) == 1 and p == "HIDDEN":      # hiding the only root hides the whole project
+            p = "PRIVATE"
         shape = rng.random()
         if shape < 0.55 or "." not in i:
             rules.append("%s:%s" % (p, i))
@@ -476,8 +478,8 @@ def run_property(ctx: Ctx, prop: str) -> int:
 
     # ---- design level: TLC judges the predicted site of every model of the family
     k = 2 if ctx.quick else 3
-    r = ctx.tlc("Site", CFG_ENUM.format(k=k, depths="{1, 3}"), workers="auto", check=False, coverage=ctx.quick,
-                timeout=900, java_opts=["-Xmx8g"])
+    r = ctx.tlc("Site", CFG_ENUM.format(k=k, depths="{1, 3}"), workers="auto", check=False, timeout=900,
+                java_opts=["-Xmx8g"])
     if r.errors or (r.rc != 0 and not r.violated):
         raise MachineryError("TLC failed on Site (enum): %s rc=%s\n%s" % (r.errors[:3], r.rc, "\n".join(r.out.splitlines()[-30:])))
     recs = r.printed
@@ -495,13 +497,15 @@ def run_property(ctx: Ctx, prop: str) -> int:
     ctx.extra["design_level_models_violating"] = design
     ctx.extra["design_level_invariants_violated_by_tlc"] = list(r.violated)
     ctx.extra["design_level_signatures"] = len(sigs)
-    if r.coverage:
-        ctx.extra["action_coverage"] = {a: c for a, c in r.coverage.items() if a in ("Init", "Build", "Judge")}
-        if any(r.coverage.get(a, 0) == 0 for a in ("Build", "Judge")):
-            raise MachineryError("vacuous action in Site.tla: %s" % r.coverage)
+    if ctx.quick:          # -coverage 1 once, on the smallest bound (it slows TLC down five-fold)
+        rc = ctx.tlc("Site", CFG_ENUM.format(k=1, depths="{1}"), workers="auto", check=True, coverage=True, timeout=600,
+                     count=False)
+        ctx.extra["action_coverage"] = {a: c for a, c in rc.coverage.items() if a in ("Init", "Build", "Judge")}
+        if any(rc.coverage.get(a, 0) == 0 for a in ("Build", "Judge")):
+            raise MachineryError("vacuous action in Site.tla: %s" % rc.coverage)
 
     # ---- spec -> code: realise a stratified sample of the models
-    budget = 130 if ctx.quick else 1500
+    budget = 200 if ctx.quick else 1500
     chosen: List[int] = []
     per = 2 if ctx.quick else 6
     for sg, idxs in sorted(sigs.items(), key=lambda kv: (len(kv[1]), kv[0])):
@@ -527,7 +531,7 @@ def run_property(ctx: Ctx, prop: str) -> int:
             pass1.append(real_job("%s#0" % nm, srcs, [], THEMES[n % 3], 1 + n % 3, 6, ctx.scratch, len(pass1)))
     res = run_jobs(jobs + pass1, workers)
     pass2 = []
-    nvar = 2 if ctx.quick else 5
+    nvar = 3 if ctx.quick else 6
     for rj in res[len(jobs):]:
         if "error" in rj or "objs" not in rj:
             continue
@@ -536,7 +540,7 @@ def run_property(ctx: Ctx, prop: str) -> int:
             continue
         for vv in range(1, nvar + 1):
             j = rj["job"]
-            pass2.append(real_job("%s#%d" % (j["name"].split("#")[0], vv), j["src"], random_rules(rng, ids, rng.randint(1, 3)),
+            pass2.append(real_job("%s#%d" % (j["name"].split("#")[0], vv), j["src"], random_rules(rng, ids, rng.randint(1, 3), rj["objs"]["roots"]),
                                   rng.choice(THEMES), rng.choice([1, 2, 3]), rng.choice([0, 1, 6]), ctx.scratch, 1000 + len(pass2)))
     if not ctx.quick:
         import pydoctor
@@ -549,8 +553,14 @@ def run_property(ctx: Ctx, prop: str) -> int:
     res += run_jobs(pass2, max(2, workers // 2) if not ctx.quick else workers)
 
     bad_runs = [x for x in res if "error" in x]
-    if bad_runs:
-        raise MachineryError("pydoctor run failed for %s: %s" % (bad_runs[0]["job"]["name"], bad_runs[0]["error"][-800:]))
+    if any(x["job"]["kind"] == "enum" for x in bad_runs):
+        b = next(x for x in bad_runs if x["job"]["kind"] == "enum")
+        raise MachineryError("pydoctor run failed for %s: %s" % (b["job"]["name"], b["error"][-800:]))
+    # a real-package run that aborts (e.g. lunr's ZeroDivisionError when a rule list hides every object) produced no
+    # site to judge: that is C01's subject, not a link / privacy violation.  Counted, not judged.
+    ctx.extra["real_runs_aborted"] = [{"case": x["job"]["name"], "privacy": x["job"]["privacy"],
+                                       "error": x["error"].strip().splitlines()[0][:200]} for x in bad_runs][:10]
+    res = [x for x in res if "error" not in x]
     cases = [to_case(x) for x in res]
     small = [c for c in cases if c["predict"]]
     big = [c for c in cases if not c["predict"]]
@@ -644,7 +654,7 @@ def negative_control(ctx: Ctx, cases: List[Dict[str, Any]], prop: str) -> Dict[s
         nc["python_twin"] = any(x[0] == "file" and x[2] == victim["file"] for x in after["HiddenNoTrace"]) \
             and any(x[0] == "inventory" for x in after["HiddenNoTrace"]) and len(after["HiddenNoTrace"]) > len(before["HiddenNoTrace"])
         rec = tlc_validate(ctx, [c], batch=1)[0]
-        nc["tlc"] = tlc_verdict(rec) == after and bool(rec["diff"].get("files_extra"))
+        nc["tlc"] = tlc_verdict(rec) == after and bool(rec["modeldiff"].get("fields") or rec["diff"].get("files_extra"))
         c2 = json.loads(json.dumps(base))
         c2["name"] = "negative-control-2"
         pub = next(o for o in c2["objs"].values() if o["cls"] == "Function" and o["incontents"] and o["priv"] == "PUBLIC")
